@@ -174,7 +174,7 @@ pub fn fsk_9600(c: &C20Case) -> Vec<Complex> {
 type Blocks = Vec<Box<dyn Block + Send>>;
 
 /// examples/ax25-1200-rx.rs, audio path, default options.
-pub fn chain_1200(audio: Vec<f32>, sr: f32) -> (Blocks, NCReadStream<Vec<u8>>) {
+pub fn chain_1200(audio: Vec<f32>, sr: f32, fix_bits: bool) -> (Blocks, NCReadStream<Vec<u8>>) {
     let mut g: Blocks = Vec::new();
     macro_rules! add {
         ($e:expr) => {{
@@ -199,7 +199,11 @@ pub fn chain_1200(audio: Vec<f32>, sr: f32) -> (Blocks, NCReadStream<Vec<u8>>) {
     ));
     let prev = add!(BinarySlicer::new(prev));
     let prev = add!(NrziDecode::new(prev));
-    let (hdlc, out) = HdlcDeframer::new(prev, 10, 1500);
+    let (mut hdlc, out) = HdlcDeframer::new(prev, 10, 1500);
+    // the receiver's documented `--fix_bits` option: clean frames come out the same with it
+    if fix_bits {
+        hdlc.set_fix_bits(true);
+    }
     g.push(Box::new(hdlc));
     (g, out)
 }
@@ -231,7 +235,7 @@ pub fn chain_9600(iq: Vec<Complex>, sr: f32, g3ruh_ctor: bool) -> (Blocks, NCRea
 
 fn build_chain(c: &C20Case) -> (Blocks, NCReadStream<Vec<u8>>) {
     rustradio::verif::set_stream_size(if c.small_streams { Some(65536) } else { None });
-    let r = if c.chain % 2 == 0 { chain_1200(afsk_1200(c), rate_of(c)) } else { chain_9600(fsk_9600(c), rate_of(c), c.phase % 2 == 1) };
+    let r = if c.chain % 2 == 0 { chain_1200(afsk_1200(c), rate_of(c), c.phase % 4 >= 2) } else { chain_9600(fsk_9600(c), rate_of(c), c.phase % 2 == 1) };
     rustradio::verif::set_stream_size(None);
     r
 }
@@ -379,7 +383,7 @@ impl Prop for C20 {
         }
     }
     fn rule(&self) -> String {
-        "generated: 1-8 frames with payloads of 10-300 bytes (random and stuffing-heavy), >= 2 flags between frames, 20-100 preamble flags, framed by the independent HDLC framer, then (a) NRZI -> Bell-202 continuous-phase AFSK (1200/2200 Hz) real audio at 44100/48000/50000 Hz or (b) G3RUH scrambler -> NRZI -> continuous-phase 2-FSK +-3 kHz complex baseband at 50000/100000 Hz, with generated start phase, sub-sample symbol timing offset and amplitude 0.3-0.9 (one case in eight: a quiet signal at 0.004-0.034 of full scale), followed either by trailing flags (the chains have no end-of-input flush) or - half of the cases - by exact digital silence (16 000 / 64 000 zero samples, with 0-8191 samples of silence in front) right after the last frame's separating flags, in a third of all cases after exactly the closing flag plus one idle flag; fed through the receive chains assembled from library blocks with the examples' parameters (1200: Hilbert(65) -> QuadratureDemod -> FftFilterFloat(low_pass 1100/100) -> add_const(-center) -> SymbolSync(0.5, [0.5,0.5]) -> BinarySlicer -> NrziDecode -> HdlcDeframer(10,1500); 9600: FftFilter(low_pass 12500/100) -> RationalResampler(50k) -> QuadratureDemod -> ZeroCrossing -> BinarySlicer -> NrziDecode -> Descrambler(0x21,0,16) or Descrambler::new_g3ruh -> HdlcDeframer(10,1500)) on Graph and on MTGraph (real threads), with 4 MB or 64 KiB streams; in one case of four the chain ends, as the documented receivers do, in a PduWriter and the delivered frames are the files of its directory in the order of their (time-of-writing) names. Oracle: delivered packets == transmitted payloads, each exactly once, in order, identical bytes, nothing else, same on both runners. Non-trivial: a frame >= 100 bytes, or >= 3 frames, or non-integer samples per symbol; distinct = hash of the case.".into()
+        "generated: 1-8 frames with payloads of 10-300 bytes (random and stuffing-heavy), >= 2 flags between frames, 20-100 preamble flags, framed by the independent HDLC framer, then (a) NRZI -> Bell-202 continuous-phase AFSK (1200/2200 Hz) real audio at 44100/48000/50000 Hz or (b) G3RUH scrambler -> NRZI -> continuous-phase 2-FSK +-3 kHz complex baseband at 50000/100000 Hz, with generated start phase, sub-sample symbol timing offset and amplitude 0.3-0.9 (one case in eight: a quiet signal at 0.004-0.034 of full scale), followed either by trailing flags (the chains have no end-of-input flush) or - half of the cases - by exact digital silence (16 000 / 64 000 zero samples, with 0-8191 samples of silence in front) right after the last frame's separating flags, in a third of all cases after exactly the closing flag plus one idle flag; fed through the receive chains assembled from library blocks with the examples' parameters (1200: Hilbert(65) -> QuadratureDemod -> FftFilterFloat(low_pass 1100/100) -> add_const(-center) -> SymbolSync(0.5, [0.5,0.5]) -> BinarySlicer -> NrziDecode -> HdlcDeframer(10,1500), in half of the cases with the receiver's --fix_bits option (set_fix_bits(true)); 9600: FftFilter(low_pass 12500/100) -> RationalResampler(50k) -> QuadratureDemod -> ZeroCrossing -> BinarySlicer -> NrziDecode -> Descrambler(0x21,0,16) or Descrambler::new_g3ruh -> HdlcDeframer(10,1500)) on Graph and on MTGraph (real threads), with 4 MB or 64 KiB streams; in one case of four the chain ends, as the documented receivers do, in a PduWriter and the delivered frames are the files of its directory in the order of their (time-of-writing) names. Oracle: delivered packets == transmitted payloads, each exactly once, in order, identical bytes, nothing else, same on both runners. Non-trivial: a frame >= 100 bytes, or >= 3 frames, or non-integer samples per symbol; distinct = hash of the case.".into()
     }
     fn assumptions(&self) -> Vec<String> {
         vec![
